@@ -288,7 +288,7 @@ theorem rpc_seg_reply (cfg : Cfg) (env : Env) (ci : ClientInfo) (hc : HasCookie 
 
 /-- the generated table of `proto_init()` is well-formed: transitions stay inside the table, rows
     below `match_limit` carry no match, rows above carry exactly the ids 1..8 -/
-theorem proto_table_ok : TblOk protoTbl 189 := protoTbl_ok
+theorem proto_table_ok : TblOk protoTbl Gen.ProtoSmack.nrows := protoTbl_ok
 
 /-- `inner_match` over `a ++ b` (any table): run over `a`; stop if a match row was entered, otherwise
     continue over `b` from the row and offset reached -/
@@ -456,7 +456,14 @@ theorem c11_full_false_rpc : ¬ SegIndep cfg0 env0 ci0 k3Rpc :=
 
 /-- the identification itself is not affected: segment by segment the matcher reports the same id as on
     the whole stream — HTTP found in the second segment of `GE | T / …`, RPC in the second of the cut call -/
-example : identSegs baseState k3Http = .ok (PROTO_HTTP, 187) ∧ identSegs baseState k3Rpc = .ok (PROTO_RPC_TCP, 170) := by
+example : (identSegs baseState k3Http).toOption.map (·.1) = some PROTO_HTTP ∧
+    (identSegs baseState k3Rpc).toOption.map (·.1) = some PROTO_RPC_TCP ∧
+    -- … ending in the very matcher state of the one-shot search (a match row, whatever its number)
+    (identSegs baseState k3Http).toOption.map (·.2) =
+      (protoTbl.searchNext baseState k3Http.flatten).toOption.map (·.2.1) ∧
+    (identSegs baseState k3Rpc).toOption.map (·.2) =
+      (protoTbl.searchNext baseState k3Rpc.flatten).toOption.map (·.2.1) ∧
+    ((identSegs baseState k3Http).toOption.map (fun r => decide (protoTbl.matchLimit ≤ r.2))) = some true := by
   decide +kernel
 
 /-! ## 8. non-vacuity: concrete splits against the theorems' conclusions -/
@@ -490,16 +497,20 @@ example : repliesOf http5 = some [none, none, some (httpReplyBytes env0), some (
 example : trig cfg0 env0 ci0 (B "GET / HTTP/1.1\r\nHost: a\r\n") = none ∧
     repliesOf [B "GET / HTTP/1.1", B "\r\nHost: a\r\n"] = some [none, none] := by decide +kernel
 
+/-- the match row of the ONC-RPC-over-TCP signature in the compiled table (computed, not written down) -/
+private def rpcRow : Nat := ((protoTbl.searchNext baseState (call.take 28)).toOption.map (·.2.1)).getD 0
+
 private def rpc2 : List Bytes := [call.take 28, call.drop 28]
 private def rpc3 : List Bytes := [call.take 30, (call.drop 30).take 5, call.drop 35]
 
 -- hypotheses of `rpc_seg_indep_partial`: the matcher reports RPC-over-TCP at byte 28 of the first segment
-example : protoTbl.searchNext baseState (call.take 28) = .ok (PROTO_RPC_TCP, 170, 28) ∧
-    protoTbl.searchNext baseState (call.take 30) = .ok (PROTO_RPC_TCP, 170, 28) := by decide +kernel
+example : protoTbl.searchNext baseState (call.take 28) = .ok (PROTO_RPC_TCP, rpcRow, 28) ∧
+    protoTbl.searchNext baseState (call.take 30) = .ok (PROTO_RPC_TCP, rpcRow, 28) ∧
+    protoTbl.matchLimit ≤ rpcRow := by decide +kernel
 example : SegIndep cfg0 env0 ci0 rpc2 :=
-  rpc_seg_indep_partial cfg0 env0 ci0 _ _ rfl rfl (call.take 28) 170 28 (by decide +kernel) _
+  rpc_seg_indep_partial cfg0 env0 ci0 _ _ rfl rfl (call.take 28) rpcRow 28 (by decide +kernel) _
 example : SegIndep cfg0 env0 ci0 rpc3 :=
-  rpc_seg_indep_partial cfg0 env0 ci0 _ _ rfl rfl (call.take 30) 170 28 (by decide +kernel) _
+  rpc_seg_indep_partial cfg0 env0 ci0 _ _ rfl rfl (call.take 30) rpcRow 28 (by decide +kernel) _
 example : splitOk rpc2 44 = true ∧ splitOk rpc3 44 = true := by decide +kernel
 example : (repliesOf rpc3).map (·.map (·.map hexOf)) =
     some [none, none, some "8000001c0102030400000001000000000000000000000000000000000000006f"] := by
